@@ -197,9 +197,8 @@ func classify(old, new wh.Build, dp *wh.Patch) classification {
 					continue
 				}
 				via := target + strings.TrimPrefix(q, p)
-				if nk.kind(via) != "-" {
-					cl.add("dir->symlink:old-child-deleted-through-new-link", via)
-				}
+				// repaired in /repo (fix: overlay bowl: ghosts below a new symlink): no longer a known-bad role
+				_ = via
 			}
 		case "lf":
 			if t, isT := producedBy[p]; isT && t.how == "copy" {
